@@ -466,10 +466,19 @@ class Check:
 
 
 def sig_match(pattern, sig):
-    """known-finding signatures are exact strings or end with '*' (prefix match)."""
-    if pattern.endswith("*"):
-        return sig.startswith(pattern[:-1])
-    return pattern == sig
+    """known-finding signatures: '*' matches any run of characters, everything else is literal."""
+    parts = pattern.split("*")
+    if len(parts) == 1:
+        return pattern == sig
+    if not sig.startswith(parts[0]) or not sig.endswith(parts[-1]):
+        return False
+    pos = len(parts[0])
+    for mid in parts[1:-1]:
+        i = sig.find(mid, pos)
+        if i < 0:
+            return False
+        pos = i + len(mid)
+    return pos <= len(sig) - len(parts[-1])
 
 
 def chunks_of(lst, n):
@@ -524,3 +533,4 @@ def quiet_threads():
     """Exceptions that end a pipeline thread are part of many scenarios; do not print their tracebacks."""
     import threading
     threading.excepthook = lambda args: None
+    sys.unraisablehook = lambda args: None     # abandoned generators being finalised
